@@ -5,12 +5,17 @@
 //! exit 1: a violation was found; a line `VIOLATION property=<id> replay=<path>` is printed
 //! exit 2: inconclusive / infrastructure problem (never a violation)
 
+mod alloc;
 mod engine;
+mod isolate;
 mod enc;
 mod model;
 mod props;
 
 use engine::{Ctx, Tier};
+
+#[global_allocator]
+static GLOBAL: alloc::Counting = alloc::Counting;
 
 fn usage() -> ! {
     eprintln!("usage: check <C01..C20> [--tier quick|thorough] [--seed N] [--replay FILE]");
